@@ -92,7 +92,8 @@ def add_lsb0(qualname, mutates_self=False, custom=None, shape_filter=None, extra
         o = dict(sh.opts)
         o['lsb0'] = True
         new.append(Shape(sh.name + '/lsb0', sh.build, sh.real, opts=o, loop_bound=sh.loop_bound, props={'C12'} | set(extra_props), gen=sh.gen,
-                         stable=(stable(sh) if callable(stable) else stable) and sh.stable, timeout_ms=timeout_ms or sh.timeout_ms))
+                         stable=(stable(sh) if callable(stable) else stable) and sh.stable, timeout_ms=timeout_ms or sh.timeout_ms,
+                         may_be_empty=getattr(sh, 'may_be_empty', False), bounded_only=sh.bounded_only))
     c.shapes.extend(new)
 
 
@@ -210,3 +211,14 @@ for _q in ('bits.Bits.__lshift__', 'bits.Bits.__rshift__', 'bitarray_.BitArray._
     for _sh in REGISTRY[_q].shapes:
         if _sh.opts.get('lsb0') and _sh.props is not None:
             _sh.props = set(_sh.props) | {'C16'}
+
+
+# ---- reads in lsb0 mode: the window counted from the least significant end, interpreted as a whole value ------------------------
+for _q in ('bitstream.ConstBitStream.read', 'bitstream.ConstBitStream.peek'):
+    add_lsb0(_q, custom=REGISTRY[_q].spec, extra_props={'C06'})
+from . import packing as _packing, streamlists as _streamlists  # noqa: E402
+for _q in ('bits.Bits._read_dtype_list', 'bitstream.ConstBitStream.readlist', 'bitstream.ConstBitStream.peeklist'):
+    add_lsb0(_q, custom=REGISTRY[_q].spec, extra_props={'C06', 'C05'})
+for _q in ('methods.pack', 'methods.pack@bits'):
+    add_lsb0(_q, custom=REGISTRY[_q].spec, extra_props={'C05'})
+add_lsb0('bitarray_.BitArray.byteswap', mutates_self=True)
